@@ -22,6 +22,80 @@ fn arg(args: &[String], name: &str) -> Option<String> {
 
 static FORCE_T: std::sync::atomic::AtomicBool = std::sync::atomic::AtomicBool::new(false);
 
+/// Watchdog: a root poll that never returns cannot be pre-empted by the simulator, so a helper
+/// thread watches the wall clock of the run in progress. A run exceeding `HANG_SECS` is a liveness
+/// violation (C04: "the run always terminates") and is reported with its plan as the replay file;
+/// for any other property it is a harness-level abort (exit 2), never a silent hang.
+const HANG_SECS: u64 = 180;
+static REPLAYING: std::sync::Mutex<Option<String>> = std::sync::Mutex::new(None);
+static CURRENT: std::sync::Mutex<Option<(std::time::Instant, String, u64, u64)>> = std::sync::Mutex::new(None);
+
+fn start_watchdog(prop: String, seed: u64, replay_dir: PathBuf) {
+    std::thread::spawn(move || {
+        loop {
+            std::thread::sleep(std::time::Duration::from_secs(2));
+            let cur = CURRENT.lock().ok().and_then(|g| g.clone());
+            let Some((t0, plan_json, idx, run_seed)) = cur else { continue };
+            if t0.elapsed().as_secs() < HANG_SECS {
+                continue;
+            }
+            if let Some(path) = REPLAYING.lock().ok().and_then(|g| g.clone()) {
+                // replaying a file: a hang reproduces a recorded hang
+                if prop == "C04" {
+                    println!("VIOLATION property=C04 replay={path}");
+                    eprintln!("a single poll of the event stream did not return within {HANG_SECS} s");
+                    std::process::exit(1);
+                }
+                eprintln!("HARNESS-ERROR: replay did not finish within {HANG_SECS} s");
+                std::process::exit(2);
+            }
+            if prop == "C04" {
+                if let Ok(plan) = serde_json::from_str::<Plan>(&plan_json) {
+                    let viol = cucumber_sim::model::Violation::new("C04", "poll-never-returns", format!("a single poll of the event stream did not return within {HANG_SECS} s of wall-clock time (busy loop without a yield)"));
+                    let rf = ReplayFile {
+                        property: "C04".into(),
+                        world: "A".into(),
+                        build: check::build_name().to_owned(),
+                        seed,
+                        run_index: idx,
+                        run_seed,
+                        class: viol.class(),
+                        violation: viol.clone(),
+                        minimised_plan: plan.clone(),
+                        original_plan: plan,
+                        shrink_executions: 0,
+                        digest: 0,
+                        schedule: vec![],
+                        fault_trace: vec!["(hang: not minimised, the run never ends)".into()],
+                        events: vec![],
+                        gherkin: vec![],
+                    };
+                    let _ = fs::create_dir_all(&replay_dir);
+                    let path = replay_dir.join(format!("C04-{}-{}-{}-hang.json", check::build_name(), seed, idx));
+                    let _ = fs::write(&path, serde_json::to_string_pretty(&rf).unwrap_or_default());
+                    println!("{}", serde_json::json!({"type":"violation","property":"C04","class":viol.class(),"code":viol.code,"attrs":viol.attrs,"msg":viol.msg,"replay":path,"run_index":idx,"hang":true}));
+                    println!("{}", serde_json::json!({"type":"classes","classes":{viol.class():1}}));
+                    std::process::exit(1);
+                }
+            }
+            eprintln!("HARNESS-ERROR: run #{idx} did not finish within {HANG_SECS} s of wall-clock time (hang inside the code under test?)");
+            std::process::exit(2);
+        }
+    });
+}
+
+fn mark_run(plan: &Plan, idx: u64, run_seed: u64) {
+    if let Ok(mut g) = CURRENT.lock() {
+        *g = Some((std::time::Instant::now(), serde_json::to_string(plan).unwrap_or_default(), idx, run_seed));
+    }
+}
+
+fn unmark_run() {
+    if let Ok(mut g) = CURRENT.lock() {
+        *g = None;
+    }
+}
+
 /// World T runs once per process: execute the plan in a child process of this very binary.
 fn exec_t_child(prop: &str, plan: &Rc<Plan>) -> Result<Executed, String> {
     use std::io::Write as _;
@@ -153,10 +227,13 @@ fn run(args: &[String]) -> Result<u8, String> {
     let mut stats = Stats::default();
     let mut classes: BTreeMap<String, u64> = BTreeMap::new();
     let mut written = 0usize;
+    start_watchdog(c.prop.clone(), c.seed, replay_dir.clone());
     for i in c.start..c.start + c.count {
         let (run_seed, plan) = plan_for(&c, i);
         let plan = Rc::new(plan);
+        mark_run(&plan, i, run_seed);
         let e = exec(&c.prop, &plan)?;
+        unmark_run();
         if let Some(h) = &e.history {
             stats.absorb_history(&plan, h);
         }
@@ -205,7 +282,13 @@ fn replay(args: &[String]) -> Result<u8, String> {
         return Err(format!("replay file is for build {:?}, this worker is {:?}", rf.build, check::build_name()));
     }
     let plan = Rc::new(rf.minimised_plan.clone());
+    if let Ok(mut g) = REPLAYING.lock() {
+        *g = Some(path.clone());
+    }
+    start_watchdog(rf.property.clone(), rf.seed, PathBuf::from("/verif/replays"));
+    mark_run(&plan, rf.run_index, rf.run_seed);
     let e = exec(&rf.property, &plan)?;
+    unmark_run();
     let same = e.violations.iter().find(|v| v.class() == rf.class);
     let digest = e.digest();
     println!(
